@@ -502,6 +502,10 @@ def _npanyall(it, f, args, kw, node):
         return v
     if is_sym(v) and z3.is_bool(v):
         return v
+    if isinstance(v, NDArr) and v.pred is not None:
+        # np.all / np.any of an element-wise IEEE predicate: named proposition (axioms: pred_axioms)
+        q = 'ALL' if f.name.endswith('all') else 'ANY'
+        return z3.Bool(f'{q}{v.pred!r}')
     if isinstance(v, Vec):
         bs = [R(x) if isinstance(x, bool) else x for x in v]
         if all(z3.is_bool(b) for b in bs):
@@ -515,7 +519,8 @@ def _npanyall(it, f, args, kw, node):
 def _npisfinite(it, f, args, kw, node):
     v = args[0]
     if isinstance(v, NDArr):
-        return NDArr(Store(f'fresh@{line(node)}', None), dtype='bool')
+        return NDArr(Store(f'fresh@{line(node)}', None), dtype='bool',
+                     pred=(f.name.split('.')[-1], v.store.uid, v.store.version))
     if isinstance(v, (int, float)):
         import math
         return {'isfinite': math.isfinite, 'isnan': math.isnan, 'isinf': math.isinf}[f.name.split('.')[-1]](v)
@@ -546,3 +551,19 @@ def _nppure(it, f, args, kw, node):
 @reg('np.int64', 'np.float64', 'np.complex128', 'np.bool_', 'np.int32')
 def _npscalar(it, f, args, kw, node):
     return args[0] if args else 0
+
+
+def pred_props(uid, ver=0):
+    """the named propositions about the elements of storage uid@ver and the IEEE-754 facts relating them.
+    (x > 0, x <= 0, ... are all false for NaN; isfinite excludes NaN and +-inf)"""
+    B = lambda q, p: z3.Bool(f'{q}{p!r}')
+    c = lambda op, k=0.0: ('cmp', op, k, uid, ver)
+    P = dict(all_pos=B('ALL', c('Gt')), any_nonpos=B('ANY', c('LtE')), any_neg=B('ANY', c('Lt')), all_nonneg=B('ALL', c('GtE')),
+             all_finite=B('ALL', ('isfinite', uid, ver)), any_inf=B('ANY', ('isinf', uid, ver)), any_nan=B('ANY', ('isnan', uid, ver)),
+             any_notfinite=B('ANY', ('isfinite', uid, ver)))
+    ax = [z3.Implies(P['all_pos'], z3.Not(P['any_nonpos'])),          # not conversely: NaN
+          z3.Implies(P['all_pos'], z3.And(z3.Not(P['any_neg']), z3.Not(P['any_nan']))),
+          z3.Implies(P['all_finite'], z3.And(z3.Not(P['any_inf']), z3.Not(P['any_nan']))),
+          z3.Implies(z3.And(z3.Not(P['any_inf']), z3.Not(P['any_nan'])), P['all_finite']),
+          z3.Implies(z3.And(z3.Not(P['any_nonpos']), z3.Not(P['any_nan'])), P['all_pos'])]
+    return P, ax
